@@ -19,10 +19,13 @@ using namespace draco;
 #ifndef NA
 #define NA 1
 #endif
+#ifndef PREFIX
+#define PREFIX 0
+#endif
 #define NC (3 * NF)
 typedef Mesh::Face MeshFace;
 VERIF_VEC_FILL_MODEL(MeshFace)
-VERIF_VEC_GROW_MODEL_RV(int, NC)
+VERIF_VEC_PREFIX_MODEL(int, NC)
 #include "draco/compression/mesh/mesh_edgebreaker_decoder_impl.cc"
 #include "draco/compression/mesh/mesh_edgebreaker_decoder.cc"
 #include "draco/compression/mesh/mesh_decoder.cc"
@@ -101,6 +104,14 @@ extern "C" void h_eb_assign(void) {
     slots[i].connectivity_data.corner_table_ = &ct;
   }
   verif_adopt(impl.attribute_data_, slots, na, NA > 0 ? NA : 1);
+  // "any number of points were already created": the point list starts with a virtual prefix of K entries, so new
+  // point ids start at K (the function only appends to the list and takes its size)
+  #ifdef ANY_PREFIX
+  const uint32_t K = nondet_u32(); verif_assume(K <= 0x7fffff00u);
+#else
+  const uint32_t K = PREFIX;      // quick tier: a fixed number of earlier points (0, or one below a bit-width boundary)
+#endif
+  verif_vec_prefix_int = K; verif_vec_prefix_armed_int = true;   // consumed by the first local std::vector<int>: point_to_corner_map
   const uint32_t ncv = nv;      // caller's contract: the connectivity vertex count covers every vertex id of the table
   const bool ok = impl.AssignPointsToCorners((int)ncv);
   verif_observe(ok);
@@ -113,10 +124,13 @@ extern "C" void h_eb_assign(void) {
     uint32_t c = nondet_u32(), d = nondet_u32(), p = nondet_u32(); verif_assume(c < NC && d < NC);
     verif_assert(pt[c] < np, "every face index of a successfully decoded mesh is < num_points");
     if (na > 0) {
-      verif_assume(p < np);
+      verif_assert(pt[c] >= K, "every corner of this table gets one of the points created for it");
+      verif_assume(p >= K && p < np);
       int used = 0; for (int k = 0; k < NC; ++k) if (pt[k] == p) used = 1;
       verif_assert(used, "every point is used by some corner (no point without attribute values)");
     }
+    if (na == 0) verif_assert(np == ncv, "position-only: one point per connectivity vertex");
+    else verif_assert(!verif_vec_prefix_armed_int && np >= K, "the point list of the function under test took the prefix");
     if (pt[c] == pt[d]) {
       verif_assert(c2v[c] == c2v[d], "corners sharing a point share the position vertex");
       for (uint32_t i = 0; i < NA; ++i) if (i < na) verif_assert(a2v[i][c] == a2v[i][d], "corners sharing a point share the attribute vertex of every attribute");
